@@ -37,7 +37,22 @@
 (* The endpoint answers each send ok / fail, at most MaxFaults failures.      *)
 (* The level-A observation o (BatchRouteOps) is updated wherever the outside  *)
 (* world sees something; the statements are checked on it (LevelA, AtExit)    *)
-(* and, independently, on the model's own state.                              *)
+(* and, independently, on the model's own state.  No VIEW: the observation    *)
+(* is part of the state (the state spaces are small enough).                  *)
+(* Named deviations (Mutant), each rejected by TLC (checks/xbatch.py):        *)
+(*   flush_drops_trigger   pubsub: the item that triggered the flush is lost  *)
+(*   no_reset              the batch is not reset after a successful send     *)
+(*   retry_tail_only       kafka: the repetition resends only the tail        *)
+(*   give_up               kafka: a failed batch is given up                  *)
+(*   no_final_flush        the final flush on shutdown is skipped             *)
+(*   no_drain              the loop returns on shutdown with items queued     *)
+(*   drop_uncounted        a dropped item is not counted                      *)
+(*   drop_when_not_full    non-blocking Dispatch drops one slot early         *)
+(*   nb_no_default         non-blocking Dispatch blocks on a full buffer      *)
+(*   threshold_off_by_one  the threshold test is off by one                   *)
+(*   bad_item_appended     an unparsable item is batched                      *)
+(*   no_timer_flush, no_retry   (liveness only) the timer does not flush;     *)
+(*                         kafka never repeats a failed send                  *)
 EXTENDS BatchRouteOps, TLC, Json
 
 CONSTANTS Kind,          \* "kafka" | "pubsub" | "cloudwatch"
